@@ -94,6 +94,10 @@ ChargeRows == /\ Len(F.charge) = Len(G)
                     /\ Near(100 * F.charge[k][3], T.ch[k][2], 51)      \* column 3: folded
 PiLine == F.pi[1] # NoneV => /\ Near(F.pi[1] * 10000, T.pi[1], 5001)   \* folded first
                              /\ Near(F.pi[2] * 10000, T.pi[2], 5001)
+(* the section written for a single conformation reports that conformation's own pI (T.confpi: <<file folded, file
+   unfolded (hundredths), API folded, API unfolded (micro)>> per conformation of a multi-conformation input) *)
+ConfPiLine == \A k \in 1..Len(T.confpi) : /\ Near(T.confpi[k][1] * 10000, T.confpi[k][3], 5001)
+                                             /\ Near(T.confpi[k][2] * 10000, T.confpi[k][4], 5001)
 OptLine == (F.opt[1] # NoneV /\ T.opt[1] # NoneV) =>
                /\ Near(F.opt[1] * 100000, T.opt[1], 50001)
                /\ Near(F.opt[2] * 1000, T.opt[2], 501)
